@@ -216,10 +216,9 @@ def raw_observe(root, C, dts, fresh, prev_inow):
                 ser["hc"] = n.holding_costs
             lastidx = max(lastidx, len(n.prices) - 1)
         for k, s in ser.items():
-            if not (C["kind"][i] == "strat" and k == "bop"):
-                rows[k][i] = _row(s, inow)
-                if prev_inow is not None and 0 <= prev_inow < inow:
-                    prev[k][i] = _row(s, prev_inow)
+            rows[k][i] = _row(s, inow)
+            if prev_inow is not None and 0 <= prev_inow < inow:
+                prev[k][i] = _row(s, prev_inow)
             lastidx = max(lastidx, len(s) - 1)
             chk_now = _digest(chk_now, n.full_name, k, s, inow)
             if prev_inow is not None and prev_inow >= 0:
@@ -246,6 +245,7 @@ class Recorder:
         self.dec = Decoder(C["D"])
         self.decw = Decoder(C["DW"])
         self.events = []
+        self.raws = {}
         self.prev_raw = None
         self.prev_inow = None  # date index at the previous event
         self.last_date_inow = None  # date index before the most recent date change
@@ -367,6 +367,7 @@ class Recorder:
         ev["rau"] = rau
         ev["same"] = same
         self._fill(ev, raw, N)
+        self.raws[len(self.events)] = raw
         ev["inexact"] = self.dec.inexact + self.decw.inexact > dec0
         ev["finite"] = self.dec.nonfinite == 0
         self.events.append(ev)
@@ -430,6 +431,7 @@ class Recorder:
         else:
             zr = {k: z for k in ("value", "cash", "pos", "notl", "fees", "flows", "outl", "bop", "cpn", "hc")}
             ev.update(val=z, wgt=z, notl=z, rows=zr, prev=zr, lastidx=0, chknow=0, chkprev=0, ratio=[1, 1])
+        ev.setdefault("eqbase", True)
         ev.setdefault("rau", True)
         ev.setdefault("same", False)
         ev.setdefault("inexact", False)
@@ -486,3 +488,56 @@ def run_online(C, gen, tid=0, lazy=False):
     tr = {"tid": tid, "C": C, "events": rec.events, "ops": ops}
     tr["meta"] = {"inexact": rec.dec.inexact + rec.decw.inexact, "worst_residual": max(rec.dec.worst, rec.decw.worst), "exc_msg": getattr(rec, "exc_msg", "")}
     return tr
+
+
+def run_variant(C, base_ops, rng, tid=0, lazy=False, k=4):
+    """C08 pair: the same history with k redundant updates / reads inserted at
+    places where the tree may be refreshed without changing the meaning of the
+    history (not inside a deferred update=False batch).  Returns (base trace,
+    variant trace); variant events carry eqbase = observation identical to the
+    base run's observation after the same operation (bitwise)."""
+    base = Recorder(C, lazy=lazy)
+    ok = True
+    for op in base_ops:
+        ev = base.step(op)
+        if ev["exc"] != "none" or ev["bankrupt"]:
+            ok = False
+            break
+    n = len(base.events)
+    # insertion points: after op i (0-based) if the batch is closed there
+    pts = []
+    deferred = False
+    cur = 0
+    for i, op in enumerate(base_ops[:n]):
+        if op["op"] == "update":
+            cur = op["date"]
+            deferred = False
+        elif not op.get("upd", True) and op["op"] not in ("read", "flatten"):
+            deferred = True
+        if not deferred and cur > 0 and i < n - 1:
+            pts.append((i, cur))
+    chosen = sorted(rng.sample(pts, min(k, len(pts)))) if pts else []
+    ins = {}
+    for i, c in chosen:
+        ins.setdefault(i, []).append(c)
+    var = Recorder(C, lazy=lazy)
+    vops = []
+    for i, op in enumerate(base_ops[:n]):
+        ev = var.step(op)
+        vops.append(op)
+        b = base.raws.get(i)
+        v = var.raws.get(len(var.events) - 1)
+        if b is not None and v is not None and "val" in b and "val" in v:
+            ev["eqbase"] = _same(b, v)
+        if ev["exc"] != "none" or ev["bankrupt"]:
+            break
+        for c in ins.get(i, []):
+            if rng.random() < 0.6:
+                x = {"op": "update", "date": c}
+            else:
+                x = {"op": "read", "node": rng.randint(1, C["N"]), "prop": rng.choice(["value", "weight", "notional_value"])}
+            var.step(x)
+            vops.append(x)
+    bt_ = {"tid": tid, "C": C, "events": base.events, "ops": list(base_ops[:n])}
+    vt = {"tid": tid + 1, "C": C, "events": var.events, "ops": vops, "variant_of": tid}
+    return bt_, vt
